@@ -2,6 +2,7 @@ package provsim
 
 import (
 	"fmt"
+	"os"
 	"strings"
 	"testing"
 	"testing/synctest"
@@ -82,6 +83,30 @@ func (e Engine) Execute(r *core.Run) (v *core.Violation) {
 }
 
 func (Engine) Describe(property string) core.Description {
+	d := describe(property)
+	switch property {
+	case "C14", "C15":
+		if layer2Available() {
+			d.Rule += "  LAYER 2 (every second run): the provider's actor files and go-lifecycle are instrumented by yieldgen so that every go statement, channel operation and select is a scheduling point; " +
+				"the seeded scheduler resumes exactly one parked goroutine (or completes one parked call, or injects one event through a task) per decision, ready select cases are polled in an order drawn from the choice stream."
+			d.Extra = map[string]interface{}{"layer2": "active"}
+			if property == "C15" {
+				d.RequiredProbes = append(d.RequiredProbes, "probe:l2-histories", "probe:l2-history-with-clone")
+			} else {
+				d.RequiredProbes = append(d.RequiredProbes, "probe:l2-runs-completed", "probe:l2-close-before-first-deploy-started", "probe:l2-close-during-deploy", "probe:l2-update-during-deploy")
+			}
+		} else {
+			reason := os.Getenv("VERIF_LAYER2_REASON")
+			if reason == "" {
+				reason = "binary built without the yieldgen overlay"
+			}
+			d.Extra = map[string]interface{}{"layer2": "unavailable: " + reason}
+		}
+	}
+	return d
+}
+
+func describe(property string) core.Description {
 	d := core.Description{
 		Real: []string{"pubsub bus", "go-lifecycle", "util/runner"},
 		Assumptions: []string{"Layer 1: exactly one stimulus is applied per quiescent point (actor-level schedule); interleavings inside the propagation of one stimulus are not explored",
